@@ -108,6 +108,7 @@ func c06Eval(c c06Case) (ok bool, sig, detail string) {
 		if perr != nil {
 			return true, "", ""
 		}
+		engine.Outcome(p1)
 		if e2 != nil {
 			return false, "printed-form-rejected", fmt.Sprintf("AsLocation(%q) prints as %q which the parser rejects: %v", c.Str, p1, e2)
 		}
